@@ -2,11 +2,11 @@
    weighted values + the raw fitness.values), k, the fronts the implementation's sorter returned
    during the call (as uid lists), the uids selNSGA2 returned (in order) and every individual's
    fitness.crowding_dist after the call.  `check` recomputes selection and crowding distances
-   with the model and also decides, for the very fronts the implementation used, the hypothesis
+   with the model (for nd='standard' also the fronts themselves, with Model/C05_SortStd.v) and also decides, for the very fronts the implementation used, the hypothesis
    `fronts_correct` under which the theorems are stated. *)
 From Coq Require Import List ZArith QArith Qabs Bool Uint63.
 From Coq Require Export PrimFloat.
-From DV Require Export Base.Corr Base.PyList Model.C05_Nsga2 Model.C05_Spec.
+From DV Require Export Base.Corr Base.PyList Model.C05_Nsga2 Model.C05_Spec Model.C05_SortStd.
 Import ListNotations.
 
 Definition mkpop {A} (l : list (list Z * list A)) : list (ind A) :=
@@ -41,6 +41,15 @@ Definition cd_table {T} (n : nat) (fu : list (list nat)) (cds : list (list T)) :
                                      (combine (fst fc) (snd fc)) tab)
             (combine fu cds) (repeat None n).
 
+(* nd='standard': the transcription of sortNondominated must return exactly the fronts (members and
+   order) that the implementation's sortNondominated returned during the call *)
+Definition std_ok {A} (std : bool) (p : list (ind A)) (k : nat) (fu : list (list nat)) : bool :=
+  negb std ||
+  match sort_nd p k with
+  | Some fr => list_eqb (list_eqb Nat.eqb) (map uids fr) fu
+  | None => false
+  end.
+
 Section Runner.
   Variable o : numops.
   Variable deq : D o -> D o -> bool.
@@ -48,10 +57,10 @@ Section Runner.
   Variable dok : D o -> bool.
 
   Definition run_sel (k : nat) (pop : list (list Z * list (V o))) (fu : list (list nat))
-             (obs_sel : list nat) (obs_cd : list (option (D o))) (cmp_sel : bool) : bool :=
+             (obs_sel : list nat) (obs_cd : list (option (D o))) (cmp_sel std : bool) : bool :=
     let p := mkpop pop in
     let fronts := map (select p) fu in
-    wf_pop_b p && fronts_correct_b p k fu &&
+    wf_pop_b p && fronts_correct_b p k fu && std_ok std p k fu &&
     match sel_nsga2 o fronts k with
     | None => false
     | Some r => negb cmp_sel || list_eqb Nat.eqb (map uid r) obs_sel
@@ -64,7 +73,7 @@ Section Runner.
 End Runner.
 
 Inductive case :=
-| CSelF (k : nat) (pop : list (list Z * list float)) (fu : list (list nat))
+| CSelF (std : bool) (k : nat) (pop : list (list Z * list float)) (fu : list (list nat))
         (obs_sel : list nat) (obs_cd : list (option float))
 | CSelQ (exact : bool) (k : nat) (pop : list (list Z * list Q)) (fu : list (list nat))
         (obs_sel : list nat) (obs_cd : list (option qinf))
@@ -73,9 +82,9 @@ Inductive case :=
 
 Definition check (c : case) : bool :=
   match c with
-  | CSelF k pop fu s cd => run_sel f_ops feqb (fun d => negb (PrimFloat.is_nan d)) k pop fu s cd true
+  | CSelF std k pop fu s cd => run_sel f_ops feqb (fun d => negb (PrimFloat.is_nan d)) k pop fu s cd true std
   | CSelQ exact k pop fu s cd =>
-      run_sel q_ops (if exact then qinf_eqb else qinf_close) (fun _ => true) k pop fu s cd exact
+      run_sel q_ops (if exact then qinf_eqb else qinf_close) (fun _ => true) k pop fu s cd exact false
   | CCrowdF vals obs => run_crowd f_ops feqb vals obs
   | CCrowdQ exact vals obs => run_crowd q_ops (if exact then qinf_eqb else qinf_close) vals obs
   end.
